@@ -42,7 +42,7 @@ manifest = {
         "guard": "oxidd_verif (rustc --cfg)",
         "enable": "RUSTFLAGS='--cfg oxidd_verif' cargo build --release --offline (done by check.py for the harness). One hook: lock-event instrumentation `oxidd_core::util::verif_locks` with tokens at every lock site (used by the C07 lock-trace streams); all other observations use public API. With the guard off the instrumentation compiles to nothing.",
         "baseline_off_cmd": "cd /repo && cargo test --workspace --no-fail-fast --offline",
-        "source_commits": ["88146f9", "cfc00a3"],
+        "source_commits": ["88146f9", "cfc00a3", "eb5fab5"],
         "add_only": False,
     },
     "engines": [
